@@ -37,7 +37,7 @@
                    the consume function receives exactly the values published at the removed indices
                    (`bq_value`), in index order.
   `tick` (index ↦ item), `holder`, `pub`, `sig`, `popped`, `consumed`, `ncons`, `returned`, `refusals`,
-  `debt`, `joinBad` and the `snap` / `otk` arguments of program counters are ghosts: they never influence
+  `debt`, `joinBad`, `wrapped` and the `snap` / `otk` arguments of program counters are ghosts: they never influence
   a label or a non-ghost field.
   Core Lean only (this file is linked into the replay driver).
 -/
@@ -53,6 +53,9 @@ structure Cfg where
   is handed out but not popped (`Gen.ExecQ.exitChecksSize`; the shape before repair 0c66556 is `false`,
   kept so that the necessity of the branch is a theorem, `Properties.C16.eq_prefix_*`) -/
   sizeCheck : Bool := true
+  /-- width in bits of `_events` (and of the local copies `events`); `8 * Gen.ExecQ.eventsBytes` = 64 in
+  the code.  `fetch_add` wraps modulo `2 ^ evBits`; the ghost `wrapped` records that it ever did. -/
+  evBits : Nat := 64
 
 /-- one submission: the `seq`-th `execute` of thread `owner`, carrying payload `val` -/
 structure Item where
@@ -107,12 +110,13 @@ structure State where
   refusals : Nat                  -- number of refused launch attempts so far
   debt : Bool                     -- a refused launch was rolled back and no consumer has exited since
   joinBad : Bool                  -- some `join` returned while an index of its snapshot was not consumed
+  wrapped : Bool                  -- some `_events.fetch_add` overflowed the counter (2^evBits signals in one episode)
 
 def State.init : State :=
   { events := 0, tail := 0, head := 0, pub := fun _ => false, pc := fun _ => .idle, launched := 0,
     result := fun _ => 0, nextSeq := fun _ => 0, tick := fun _ => none, holder := fun _ => 0,
     sig := fun _ => false, popped := [], consumed := [], ncons := 0, returned := [], refusals := 0,
-    debt := false, joinBad := false }
+    debt := false, joinBad := false, wrapped := false }
 
 def upd {α : Type} (f : Nat → α) (i : Nat) (v : α) : Nat → α := fun j => if j = i then v else f j
 
@@ -164,12 +168,14 @@ def stepThread (c : Cfg) (s : State) (t : Nat) (inp : Inp) : Option (State × La
     else none
   | .pSignal otk =>
     if s.events = 0 then
-      some ({ s with events := s.events + signalInc, sig := setSig s otk,
+      some ({ s with events := (s.events + signalInc) % 2 ^ c.evBits,
+                     wrapped := s.wrapped || decide (2 ^ c.evBits ≤ s.events + signalInc), sig := setSig s otk,
                      pc := upd s.pc t (.pLaunch rollbackExpectInit otk) },
             .rmw "add" "events" 0 ordSignal s.events signalInc)
     else
-      some ({ s with events := s.events + signalInc, sig := setSig s otk, pc := upd s.pc t .idle,
-                     result := upd s.result t 0, returned := addReturned s otk },
+      some ({ s with events := (s.events + signalInc) % 2 ^ c.evBits,
+                     wrapped := s.wrapped || decide (2 ^ c.evBits ≤ s.events + signalInc), sig := setSig s otk,
+                     pc := upd s.pc t .idle, result := upd s.result t 0, returned := addReturned s otk },
             .rmw "add" "events" 0 ordSignal s.events signalInc)
   | .pLaunch ev otk =>
     match inp with
@@ -256,6 +262,12 @@ inductive Step (c : Cfg) : State → State → Prop
   | join (s : State) (t : Nat) : s.pc t = .idle → Step c s (callJoin s t)
   | start (s : State) (t : Nat) : s.pc t = .idle → 0 < s.launched → Step c s (startWorker s t)
 
+/-- steps of executions in which `_events` never overflows: fewer than `2 ^ evBits` signals arrive while
+one consumer activation lasts (with the code's 64-bit counter: 2^64 signals before the queue is once
+seen empty).  All positive theorems are about these; `eq_events_wrap_counterexample` shows the
+restriction is necessary for a narrow counter. -/
+def StepN (c : Cfg) (s s' : State) : Prop := Step c s s' ∧ s'.wrapped = false
+
 /-- the same system whose executor never refuses ("every launch is accepted") -/
 inductive StepA (c : Cfg) : State → State → Prop
   | act (s : State) (t : Nat) (inp : Inp) (s' : State) (l : Label) :
@@ -264,6 +276,8 @@ inductive StepA (c : Cfg) : State → State → Prop
   | signal (s : State) (t : Nat) : s.pc t = .idle → StepA c s (callSignal s t)
   | join (s : State) (t : Nat) : s.pc t = .idle → StepA c s (callJoin s t)
   | start (s : State) (t : Nat) : s.pc t = .idle → 0 < s.launched → StepA c s (startWorker s t)
+
+def StepAN (c : Cfg) (s s' : State) : Prop := StepA c s s' ∧ s'.wrapped = false
 
 /-- skeletons this model was written against (compared with the generated ones in Properties/C16) -/
 def Skel.execute : List Site := [.call "push", .call "signal_push_event"]
